@@ -6,14 +6,13 @@ From PV Require Import Base.Index Base.Sum Np.Array Np.NpR Model.C10Tucker Proof
 Import ListNotations.
 Local Open Scope R_scope.
 
-(* hosvd.py:113-126, automatic ranks: for every non-negative spectrum and budget t >= 0, the code keeps r = ranks[k]+1
-   leading columns, the discarded eigenvalue energy is <= t, and no smaller count meets the budget *)
-Theorem C10_rank_choice : forall (eig : list R) (t : R) (rk : nat),
+(* hosvd.py:113-128, automatic ranks: for every non-negative spectrum and budget t >= 0, ranks[k] = r is the number of leading
+   columns kept (pi[0:r]), the discarded eigenvalue energy is <= t, and no smaller count meets the budget *)
+Theorem C10_rank_choice : forall (eig : list R) (t : R) (r : nat),
   Forall (fun x => 0 <= x) eig -> 0 <= t ->
-  auto_rank 0 Rplus Rltb eig t = Some rk ->
-  let r := (rk + 1)%nat in
-  (r <= length eig)%nat /\
-  (forall (A : Type) (p : list A), length p = length eig -> length (keep_cols rk p) = r) /\
+  auto_rank 0 Rplus Rltb eig t = Some r ->
+  (0 < r <= length eig)%nat /\
+  (forall (A : Type) (p : list A), length p = length eig -> length (keep_cols r p) = r) /\
   sumR (skipn r eig) <= t /\
   (forall r', (r' < r)%nat -> t < sumR (skipn r' eig)).
 Proof. exact rank_choice. Qed.
@@ -21,35 +20,22 @@ Print Assumptions C10_rank_choice.
 
 (* the rule yields a rank whenever the total energy exceeds the budget (tol < 1, X <> 0) *)
 Theorem C10_rank_choice_total : forall (eig : list R) (t : R),
-  0 <= t -> t < sumR eig -> exists rk, auto_rank 0 Rplus Rltb eig t = Some rk.
+  0 <= t -> t < sumR eig -> exists r, auto_rank 0 Rplus Rltb eig t = Some r.
 Proof. exact rank_choice_total. Qed.
 Print Assumptions C10_rank_choice_total.
 
-(* user-given ranks: "factor n has exactly ranks[n] columns" is FALSE for the code as written (A-32) ... *)
-Theorem C10_given_ranks_refuted : ~ given_ranks_stmt.
-Proof. exact given_ranks_refuted. Qed.
-Print Assumptions C10_given_ranks_refuted.
-
-(* ... it returns min(ranks[n]+1, size) columns, which is ranks[n] only for a full-size request ... *)
-Theorem C10_given_ranks_partial : forall (A : Type) (rk : nat) (p : list A),
-  length (keep_cols rk p) = Nat.min (rk + 1) (length p) /\
-  ((0 < rk <= length p)%nat -> (length (keep_cols rk p) = rk <-> rk = length p)).
-Proof. exact given_ranks_partial. Qed.
-Print Assumptions C10_given_ranks_partial.
-
-(* ... and the repaired rule (fixes/C10-A-32.diff) meets the contract for given and automatic ranks *)
+(* user-given ranks (slice pi[0:ranks[k]], hosvd.py:128 after the A-32 repair): factor n has exactly ranks[n] columns *)
 Theorem C10_given_ranks : forall (A : Type) (rk : nat) (p : list A),
-  (rk <= length p)%nat -> length (keep_cols_fixed rk p) = rk.
-Proof. exact given_ranks_fixed. Qed.
+  (rk <= length p)%nat -> length (keep_cols rk p) = rk.
+Proof. exact given_ranks. Qed.
 Print Assumptions C10_given_ranks.
 
-Theorem C10_rank_choice_fixed : forall (eig : list R) (t : R) (r : nat),
-  Forall (fun x => 0 <= x) eig -> 0 <= t ->
-  auto_rank_fixed 0 Rplus Rltb eig t = Some r ->
-  (0 < r <= length eig)%nat /\ length (keep_cols_fixed r eig) = r /\
-  sumR (skipn r eig) <= t /\ (forall r', (r' < r)%nat -> t < sumR (skipn r' eig)).
-Proof. exact rank_choice_fixed. Qed.
-Print Assumptions C10_rank_choice_fixed.
+(* column count of every factor as coded = as the property demands, for given and automatic (0) entries of ranks *)
+Theorem C10_ncols : forall (user_rank : nat) (eig : list R) (t : R),
+  Forall (fun x => 0 <= x) eig -> 0 <= t -> (user_rank <= length eig)%nat ->
+  ncols_impl 0 Rplus Rltb user_rank eig t = ncols_spec 0 Rplus Rltb user_rank eig t.
+Proof. exact ncols_correct. Qed.
+Print Assumptions C10_ncols.
 
 Section C10_space.
 (* an abstract real inner-product space: only the laws used are assumed *)
@@ -108,7 +94,7 @@ Example C10_example_ttm :
   ttm 0%nat Nat.add Nat.mul (ttm 0%nat Nat.add Nat.mul X 0 A) 1 B = ttm 0%nat Nat.add Nat.mul (ttm 0%nat Nat.add Nat.mul X 1 B) 0 A
   /\ ddata (ttm 0%nat Nat.add Nat.mul X 0 A) = [5; 2; 3; 11; 4; 9; 17; 6; 15]%nat.
 Proof. split; reflexivity. Qed.
-Example C10_example_rank : auto_rank 0 Rplus Rltb [9; 4; 1; 0] 2 = Some 1%nat /\ keep_cols 1 [3; 0; 2; 1]%nat = [3; 0]%nat.
+Example C10_example_rank : auto_rank 0 Rplus Rltb [9; 4; 1; 0] 2 = Some 2%nat /\ keep_cols 2 [3; 0; 2; 1]%nat = [3; 0]%nat.
 Proof. exact rank_choice_example. Qed.
 Example C10_example_projectors :
   let x := (1, 2, 3) in
